@@ -259,7 +259,12 @@ def worker(sh):
             h2.append((x[1] | (rng.getrandbits(3) << 381), x[0] | (rng.getrandbits(3) << 381)))
         # c0 wraps around q while incrementing
         for _ in range(3):
-            c1 = rng.randrange(Q)
+            # (c1 is drawn until c0 = q-1 itself is not an abscissa, so that at least one increment - the wrap - really happens: the
+            #  class is required, and with a blind draw every eighth seed missed it and ended inconclusive)
+            while True:
+                c1 = rng.randrange(Q)
+                if tai2((Q - 1, c1))[1] >= 1:
+                    break
             h2.append((c1, Q - 1))
     # abscissas whose x^3 + b lies in a proper subfield-like slice of Fq2 - the square root then takes its special branches: right-hand
     # side in Fq (a residue there: real root; a non-residue: purely imaginary root) or purely imaginary.  2^-381 for a random hash.
